@@ -313,7 +313,7 @@ impl Property for C18 {
 		"C18"
 	}
 	fn rule(&self) -> &'static str {
-		"four kinds of cases. (1) An independent RIFF/WAVE writer produces PCM 8/16/24/32-bit integer and 32/64-bit float files, 1..6 channels (plain and extensible headers), 0..5000 frames, any sample rate; StaticSoundData::from_cursor must return exactly the encoded sample rate, frame count and samples (exact for <= 24-bit integers and f32, 1 ulp for 32-bit integers and f64), mono duplicated, more than two channels rejected with the documented error. (2) The same bytes through StreamingSoundData::from_cursor, played at rate 1 on a device at the file's rate (decoder kept ahead through hook H2), must produce exactly the frames of the static decode, from any start position; with index-coded content and a sequence of seek_to calls (two fifths of them to packet starts, half of them preceded in the same gap by a seek_by, so that the decoder seeks twice in one step) every run of output frames after a seek must continue the file contiguously from the requested frame; a third of the seek cases play inside a loop region (anywhere in the file, 1 frame to the whole file long), two thirds of their seeks aim at or past the loop end, where the target is folded back into the region: the only discontinuities allowed are the loop's own wrap and jumps to a (folded) target, and a valid file never reports a decoder error. (3) Every single-byte corruption (header-biased) and every truncation point of a valid file must give an error value, or - for truncations - a prefix of the original frames, and never more frames than the data chunk can hold; never a panic, and the watchdog catches hangs. (4) The audio files shipped under crates/examples/assets are streamed and loaded and compared frame for frame, with seeks. Non-trivial = a multi-packet file (> 1152 frames), a seek, or a corruption inside the header; distinct = distinct decoded choices."
+		"four kinds of cases. (1) An independent RIFF/WAVE writer produces PCM 8/16/24/32-bit integer and 32/64-bit float files, 1..6 channels (plain and extensible headers), 0..5000 frames, any sample rate; StaticSoundData::from_cursor must return exactly the encoded sample rate, frame count and samples (exact for <= 24-bit integers and f32, 1 ulp for 32-bit integers and f64), mono duplicated, more than two channels rejected with the documented error. (2) The same bytes through StreamingSoundData::from_cursor, played at rate 1 on a device at the file's rate (decoder kept ahead through hook H2), must produce exactly the frames of the static decode, from any start position; with index-coded content and a sequence of seek_to calls (two fifths of them to packet starts, half of them preceded in the same gap by a seek_by, so that the decoder seeks twice in one step) every run of output frames after a seek must continue the file contiguously from the requested frame; a third of the seek cases play inside a loop region (anywhere in the file, 1 frame to the whole file long), two thirds of their seeks aim at or past the loop end, where the target is folded back into the region: the only discontinuities allowed are the loop's own wrap and jumps to a (folded) target, and a valid file never reports a decoder error. (3) Every single-byte corruption (header-biased) and every truncation point of a valid file must give an error value, or - for truncations - a prefix of the original frames, and never more frames than the data chunk can hold; never a panic, and the watchdog catches hangs. (4) The audio files shipped under crates/examples/assets (Ogg Vorbis, WAV) are streamed and loaded and compared frame for frame, from any start position, a third of them looping over a generated region (every wrap is a seek into the middle of a compressed packet). Non-trivial = a multi-packet file (> 1152 frames), a seek, or a corruption inside the header; distinct = distinct decoded choices."
 	}
 	fn assumptions(&self) -> Vec<String> {
 		vec![
@@ -623,12 +623,44 @@ impl Property for C18 {
 				let n = st.frames.len();
 				let compressed = path.extension().and_then(|e| e.to_str()) != Some("wav");
 				let mut start = if src.bool() { src.usize_in(0, n.saturating_sub(1)) } else { 0 };
-				if compressed && start != 0 && ctx.exclude("compressed-stream-from-a-non-zero-start-position") {
-					start = 0;
+				// (streaming a compressed file from a non-zero start position was a finding, fixed in
+				// /repo 4a3a6aa; its witness is replayed on every run)
+				// a third of the cases loop over a region of the file: every wrap sends the decoder back
+				// to the loop start, which for a compressed file is a seek into the middle of a packet
+				let mut lp: Option<(usize, usize)> = None;
+				if n > 4 && src.chance(1, 3) {
+					let ls = src.usize_in(0, n - 2);
+					let le = match src.weighted(&[2, 2, 1]) {
+						0 => src.usize_in(ls + 1, n),
+						1 => (ls + src.usize_in(1, 3000)).min(n),
+						_ => n,
+					};
+					start = start.min(le - 1);
+					lp = Some((ls, le));
 				}
-				let data = data.start_position(PlaybackPosition::Samples(start));
+				ctx.describe(|| format!("asset {}, start frame {start}, loop region {lp:?}", path.display()));
+				let mut data = data.start_position(PlaybackPosition::Samples(start));
+				if let Some((ls, le)) = lp {
+					data = data.loop_region(Region {
+						start: PlaybackPosition::Samples(ls),
+						end: EndPosition::Custom(PlaybackPosition::Samples(le)),
+					});
+				}
 				let limit = ctx.tier.pick(30_000, 200_000);
 				let (out, err, _) = stream_all(data, st.sample_rate, limit, &[], &[])?;
+				if let Some((ls, le)) = lp {
+					ensure!(err.is_none(), "asset-streams", "{}: streaming from frame {start} with loop region {lp:?} reported {err:?}", path.display());
+					// what a loaded copy plays: from the start to the loop end, then the region again and again
+					let mut idx = start;
+					for (i, f) in out.iter().enumerate().take(limit) {
+						ensure!(*f == st.frames[idx], "streaming-equals-loading", "{}: streaming from frame {start} with loop region {lp:?}: output frame {i} = {f:?}, the loaded file has {:?} at frame {idx}", path.display(), st.frames[idx]);
+						idx += 1;
+						if idx >= le {
+							idx = ls;
+						}
+					}
+					return Ok(CaseInfo::new(&src, true, vec!["asset", "asset-looping"]));
+				}
 				ensure!(err.is_none() || out.len() >= (n - start).min(limit), "asset-streams", "{}: streaming reported {err:?}", path.display());
 				let m = (n - start).min(out.len()).min(limit);
 				for i in 0..m {
